@@ -23,8 +23,11 @@ def must_be_refined_iff_refine_changes_cell(S, k, fixed):
     """For an allocation holding one arbitrary cell: must_be_refined(t) <=> refine(t, levels) is not the identity.
     must_be_refined is `any` over the cells (QUANT shape, checked on the AST) and refine is a flat map (FLATMAP shape),
     so the equivalence lifts to allocations with any number of cells."""
-    q = loopshape.quantifier_shape(Allocation.must_be_refined, "any")
-    f = loopshape.flatmap_shape(Allocation.refine, 0, accumulators=["new_alloc"])
+    try:
+        q = loopshape.quantifier_shape(Allocation.must_be_refined, "any")
+    except loopshape.ShapeError as e:
+        S.cover("quantifier-shape-not-applicable: " + str(e))
+    f = flatmap_or_note(S, Allocation.refine, 0)
     cell = mk_cell(S, "c", k, fixed)
     t = S.real("t")
     levels = S.choice("levels", [1, 2])
@@ -64,7 +67,7 @@ def must_be_refined_iff_refine_changes_two_cells(S, k0, k1, f1):
 def refine_selects_exactly(S, k, fixed, lv):
     """Threshold refinement splits precisely the non-empty, non-fixed cells in which no module exceeds the threshold,
     each into 2^levels equal cells obtained by halving the longer side, depth raised by levels; other cells stay."""
-    loopshape.flatmap_shape(Allocation.refine, 0, accumulators=["new_alloc"])
+    flatmap_or_note(S, Allocation.refine, 0)
     cell = mk_cell(S, "c", k, fixed)
     rect, alloc, depth = cell
     t = S.real("t")
@@ -107,7 +110,7 @@ def split_allocation_shapes(S, k):
 
 @contract(P, functions=[A + "uniform_refinement_depth"], params=[dict(k=k) for k in (0, 1, 2)])
 def uniform_reaches_max_depth(S, k):
-    loopshape.flatmap_shape(Allocation.uniform_refinement_depth, 0, accumulators=["new_alloc"])
+    flatmap_or_note(S, Allocation.uniform_refinement_depth, 0)
     cell = mk_cell(S, "c", k)
     other = mk_cell(S, "o", 1)
     a = bare_allocation([cell, other])
